@@ -148,7 +148,7 @@ def gen_expr(rng, pool, conts, depth=0):
 
 TYPED_LITERALS = [False]
 EXPR_MODE = ["int"]      # set by gen_history: "mixed" histories also use typed literals and ** inside expressions
-POW_BASES = ["\x02f:-0.0", "\x02f:-2.25", "\x02f:0.5", "\x02f:3.0", "\x02f:0.0", "\x02f:-1.0"]      # float bases: any exponent is cheap
+POW_BASES = ["\x02f:-0.0", "\x02f:-0.0", "\x02f:-0.0", "\x02f:-2.25", "\x02f:0.5", "\x02f:3.0", "\x02f:0.0", "\x02f:-1.0"]      # float bases: any exponent is cheap
 
 
 def retype_consts(e):
@@ -313,7 +313,8 @@ def gen_history(rng, profile="mixed", nops=None, nofun=False, attrdict="auto", k
             ops.append(["regknob", kid, pool[0], [[rng.randint(1, 5), p] for p in tg[:rng.choice([1, 2, 3, 5, 6, 7])]],
                         rng.choice(["list", "set"])])
         elif k < 0.95 and pool and keys != "exotic":        # numpy / enum keys do not print as loadable text
-            ops.append(["load", [[t, gen_expr(rng, pool, [])], [rng.choice(leaves), gen_expr(rng, pool, [])]], rng.random() < 0.6])
+            ops.append(["load", [[t, gen_expr(rng, pool, [])], [rng.choice(leaves), gen_expr(rng, pool, [])]], rng.random() < 0.6]
+                       + (["copy"] if rng.random() < 0.4 else []))          # "copy": the definitions come in through copy_expr_from
         elif k < 0.97:
             ops.append([rng.choice(["refresh", "verify", "cleanup"])])
         elif funs:
